@@ -73,6 +73,8 @@ pub struct AuthCase {
 }
 
 pub struct AuthOpts {
+    /// probability (n/16) that the store is closed (no reference to an entity without a record)
+    pub closed_16: u32,
     pub schema: SchemaOpts,
     pub max_policies: usize,
     pub depth: usize,
@@ -124,10 +126,40 @@ pub fn gen_auth_case(t: &mut Tape, o: &AuthOpts) -> Result<AuthCase, String> {
     if policies.is_empty() {
         return Err("no-valid-policy".into());
     }
-    let world = s::gen_world(t, &rs);
-    let ents = build_entities(&world, &schema).map_err(|e| format!("gen-rejected: world: {e}"))?;
+    let mut world = s::gen_world(t, &rs);
     let (a, pt, rt) = first_env.unwrap();
     let req = s::gen_request_for(t, &rs, a, pt, rt);
+    if t.bool_p(o.closed_16, 16) {
+        let mut refs = vec![req.principal.clone(), req.resource.clone()];
+        fn lit_uids(e: &crate::refmodel::E, out: &mut Vec<crate::refmodel::Uid>) {
+            if let crate::refmodel::E::Lit(crate::refmodel::V::Euid(u)) = e {
+                out.push(u.clone());
+            }
+            e.children().into_iter().for_each(|c| lit_uids(c, out));
+        }
+        for (_, p, _) in &policies {
+            use crate::refmodel::policy::{EntRef, PrC};
+            for pc in [&p.principal, &p.resource] {
+                if let PrC::Eq(EntRef::Uid(u)) | PrC::In(EntRef::Uid(u)) | PrC::IsIn(_, EntRef::Uid(u)) = pc {
+                    refs.push(u.clone());
+                }
+            }
+            p.conds.iter().for_each(|(_, e)| lit_uids(e, &mut refs));
+        }
+        for v in req.context.values() {
+            fn vu(v: &crate::refmodel::V, out: &mut Vec<crate::refmodel::Uid>) {
+                match v {
+                    crate::refmodel::V::Euid(u) => out.push(u.clone()),
+                    crate::refmodel::V::Set(xs) => xs.iter().for_each(|x| vu(x, out)),
+                    crate::refmodel::V::Rec(m) => m.values().for_each(|x| vu(x, out)),
+                    _ => {}
+                }
+            }
+            vu(v, &mut refs);
+        }
+        close_world(t, &rs, &mut world, refs);
+    }
+    let ents = build_entities(&world, &schema).map_err(|e| format!("gen-rejected: world: {e}"))?;
     let creq = build_request(&req, &schema).map_err(|e| format!("gen-rejected: request: {e}"))?;
     Ok(AuthCase { rs, schema, policies, pset, world, ents, req, creq, max_derefs, uses_tags, uses_optional })
 }
@@ -135,5 +167,36 @@ pub fn gen_auth_case(t: &mut Tape, o: &AuthOpts) -> Result<AuthCase, String> {
 impl AuthCase {
     pub fn render(&self) -> String {
         format!("{}\npolicies:\n{}", render_case(&self.rs, &self.world, Some(&self.req)), self.policies.iter().map(|(id, _, t)| format!("// {id}\n{t}")).collect::<Vec<_>>().join("\n"))
+    }
+}
+
+/// Make the store *closed*: every uid occurring in `refs`, in attribute / tag values or among parents gets a
+/// (conformant) record. Terminates because each entity type has finitely many instance ids.
+pub fn close_world(t: &mut Tape, rs: &RSchema, w: &mut World, refs: impl IntoIterator<Item = crate::refmodel::Uid>) {
+    use crate::refmodel::{EntityData, Uid, V};
+    fn uids_in(v: &V, out: &mut Vec<Uid>) {
+        match v {
+            V::Euid(u) => out.push(u.clone()),
+            V::Set(xs) => xs.iter().for_each(|x| uids_in(x, out)),
+            V::Rec(m) => m.values().for_each(|x| uids_in(x, out)),
+            _ => {}
+        }
+    }
+    let mut todo: Vec<Uid> = refs.into_iter().collect();
+    for d in w.entities.values() {
+        d.attrs.values().chain(d.tags.values()).for_each(|v| uids_in(v, &mut todo));
+        todo.extend(d.parents.iter().cloned());
+    }
+    while let Some(u) = todo.pop() {
+        if w.entities.contains_key(&u) || u.ty.ends_with("Action") {
+            continue;
+        }
+        let Some(et) = rs.et(&u.ty) else { continue };
+        let mut d = EntityData::default();
+        if et.enum_ids.is_none() {
+            d.attrs = s::gen_attr_values(t, &et.attrs, rs, 1);
+            d.attrs.values().for_each(|v| uids_in(v, &mut todo));
+        }
+        w.entities.insert(u, d);
     }
 }
